@@ -10,7 +10,9 @@
 //         rpc.NewServer call in it installs the closure, and which API types are registered;
 //       - the component list of isRPCPolicyValid (cluster_config.go);
 //       - IsTrustedPeer / Trust / Distrust of consensus/crdt and consensus/raft, the trust
-//         loop of crdt setup() and its pubsub topic validator.
+//         loop of crdt setup() and its pubsub topic validator;
+//       - how consensus/crdt/config.go turns its sources into TrustAll/TrustedPeers: Default (evaluated),
+//         LoadJSON, ApplyEnvVars, applyJSONConfig, toJSONConfig.
 //
 // It fails closed: any shape it does not recognise makes it exit non-zero (a
 // failed translator obligation), it never guesses.
@@ -31,6 +33,7 @@ import (
 	"strings"
 
 	ipfscluster "github.com/ipfs/ipfs-cluster"
+	crdtcfg "github.com/ipfs/ipfs-cluster/consensus/crdt"
 )
 
 var fset = token.NewFileSet()
@@ -715,6 +718,160 @@ func extractSetup(fd *ast.FuncDecl) (bool, string) {
 	return setup, validator
 }
 
+// ---------------------------------------------------------------- (ii) consensus/crdt/config.go
+
+type cfgShape struct {
+	defaultTrustAll, loadDefaults, loadResetsTrustAll, applyResetsTrustAll, applyResetsPeers bool
+}
+
+func stmtStrs(l []ast.Stmt) []string {
+	out := make([]string, len(l))
+	for i, s := range l {
+		out[i] = str(s)
+	}
+	return out
+}
+
+// mentionsTrust: does the node refer to the TrustAll / TrustedPeers fields of the receiver
+func mentionsTrust(n ast.Node, r string) bool {
+	hit := false
+	ast.Inspect(n, func(x ast.Node) bool {
+		if sel, ok := x.(*ast.SelectorExpr); ok && str(sel.X) == r && (sel.Sel.Name == "TrustAll" || sel.Sel.Name == "TrustedPeers") {
+			hit = true
+		}
+		return !hit
+	})
+	return hit
+}
+
+func extractCfgShape(f *ast.File) cfgShape {
+	var sh cfgShape
+	// --- applyJSONConfig: [resets] ; for _, p := range jcfg.TrustedPeers { "*" => TrustAll, empty list, break ; decode ; append }
+	ap := funcDecl(f, "Config", "applyJSONConfig")
+	r := recvName(ap)
+	j := paramNames(ap.Type)[0]
+	loopAt := -1
+	for i, st := range ap.Body.List {
+		if rg, ok := st.(*ast.RangeStmt); ok && str(rg.X) == j+".TrustedPeers" {
+			if loopAt >= 0 {
+				die("applyJSONConfig ranges over the trusted peers twice")
+			}
+			loopAt = i
+			v := str(rg.Value)
+			want := []string{
+				"if " + v + " == \"*\" { " + r + ".TrustAll = true " + r + ".TrustedPeers = []peer.ID{} break }",
+				"pid, err := peer.Decode(" + v + ")",
+				"",
+				r + ".TrustedPeers = append(" + r + ".TrustedPeers, pid)",
+			}
+			got := stmtStrs(rg.Body.List)
+			if len(got) != 4 {
+				die("trusted-peers loop has %d statements", len(got))
+			}
+			for k := range want {
+				if want[k] != "" && got[k] != want[k] {
+					die("trusted-peers loop statement %d: %s", k+1, got[k])
+				}
+			}
+			ifs, ok := rg.Body.List[2].(*ast.IfStmt)
+			if !ok || str(ifs.Cond) != "err != nil" || len(ifs.Body.List) != 1 || mentionsTrust(ifs, r) {
+				die("trusted-peers loop statement 3: %s", got[2])
+			}
+			if _, ok := ifs.Body.List[0].(*ast.ReturnStmt); !ok {
+				die("trusted-peers loop statement 3: %s", got[2])
+			}
+			continue
+		}
+		switch {
+		case loopAt < 0 && str(st) == r+".TrustAll = false":
+			sh.applyResetsTrustAll = true
+		case loopAt < 0 && str(st) == r+".TrustedPeers = []peer.ID{}":
+			sh.applyResetsPeers = true
+		case mentionsTrust(st, r):
+			die("applyJSONConfig: statement touches the trust fields: %s", str(st))
+		}
+	}
+	if loopAt < 0 {
+		die("applyJSONConfig has no loop over the trusted peers")
+	}
+	// --- LoadJSON: …; cfg.Default(); [cfg.TrustAll = false]; return cfg.applyJSONConfig(jcfg)
+	lj := funcDecl(f, "Config", "LoadJSON")
+	r = recvName(lj)
+	body := lj.Body.List
+	if len(body) < 2 || !strings.HasPrefix(str(body[len(body)-1]), "return "+r+".applyJSONConfig(") {
+		die("LoadJSON does not end in applyJSONConfig")
+	}
+	for _, st := range body[:len(body)-1] {
+		switch {
+		case str(st) == r+".Default()":
+			sh.loadDefaults = true
+		case str(st) == r+".TrustAll = false":
+			if !sh.loadDefaults {
+				die("LoadJSON resets TrustAll before Default()")
+			}
+			sh.loadResetsTrustAll = true
+		case mentionsTrust(st, r):
+			die("LoadJSON: statement touches the trust fields: %s", str(st))
+		}
+	}
+	// --- ApplyEnvVars: jcfg := cfg.toJSONConfig(); err := envconfig.Process(envConfigKey, jcfg); if err …; return cfg.applyJSONConfig(jcfg)
+	ev := funcDecl(f, "Config", "ApplyEnvVars")
+	r = recvName(ev)
+	got := stmtStrs(ev.Body.List)
+	if len(got) != 4 || got[0] != "jcfg := "+r+".toJSONConfig()" || got[1] != "err := envconfig.Process(envConfigKey, jcfg)" ||
+		!strings.HasPrefix(got[2], "if err != nil { return err") || got[3] != "return "+r+".applyJSONConfig(jcfg)" {
+		die("ApplyEnvVars: %v", got)
+	}
+	// --- toJSONConfig: if cfg.TrustAll { ["*"] } else { PeersToStrings(cfg.TrustedPeers) }
+	tj := funcDecl(f, "Config", "toJSONConfig")
+	r = recvName(tj)
+	found := 0
+	for _, st := range tj.Body.List {
+		if str(st) == "if "+r+".TrustAll { jcfg.TrustedPeers = []string{\"*\"} } else { jcfg.TrustedPeers = api.PeersToStrings("+r+".TrustedPeers) }" {
+			found++
+			continue
+		}
+		if mentionsTrust(st, r) || strings.Contains(str(st), "TrustedPeers") {
+			die("toJSONConfig: statement touches the trust fields: %s", str(st))
+		}
+	}
+	if found != 1 {
+		die("toJSONConfig does not render the trust fields in the known way")
+	}
+	// --- nothing else in the file assigns the trust fields (Default is evaluated, not read)
+	assigns := 0
+	ast.Inspect(f, func(n ast.Node) bool {
+		if as, ok := n.(*ast.AssignStmt); ok {
+			for _, l := range as.Lhs {
+				if sel, ok := l.(*ast.SelectorExpr); ok && (sel.Sel.Name == "TrustAll" || sel.Sel.Name == "TrustedPeers") {
+					assigns++
+				}
+			}
+		}
+		return true
+	})
+	want := 2 /* Default */ + 3 /* loop */ + 2 /* toJSONConfig writes jcfg.TrustedPeers */
+	for _, b := range []bool{sh.applyResetsTrustAll, sh.applyResetsPeers, sh.loadResetsTrustAll} {
+		if b {
+			want++
+		}
+	}
+	if assigns != want {
+		die("config.go assigns the trust fields %d times, %d of them recognised", assigns, want)
+	}
+	// --- Default(), evaluated
+	c := &crdtcfg.Config{}
+	c.TrustedPeers = nil
+	if err := c.Default(); err != nil {
+		die("crdt Config.Default: %v", err)
+	}
+	if len(c.TrustedPeers) != 0 {
+		die("crdt default configuration lists %d trusted peers", len(c.TrustedPeers))
+	}
+	sh.defaultTrustAll = c.TrustAll
+	return sh
+}
+
 // ---------------------------------------------------------------- output
 
 func leanStrList(l []string) string {
@@ -790,6 +947,7 @@ func main() {
 	raft.trustOp = cacheOp(funcDecl(raftFile, "Consensus", "Trust"), "")
 	raft.distrustOp = cacheOp(funcDecl(raftFile, "Consensus", "Distrust"), "")
 	raft.validator = ".acceptAll"
+	cs := extractCfgShape(parseFile(filepath.Join(repo, "consensus/crdt/config.go")))
 
 	// --- emit
 	var b strings.Builder
@@ -841,6 +999,9 @@ func main() {
 	emitShape("crdt", crdt)
 	w("/-- consensus/raft: IsTrustedPeer, Trust, Distrust -/\n")
 	emitShape("raft", raft)
+	w("/-- consensus/crdt/config.go: Default, LoadJSON, ApplyEnvVars, applyJSONConfig (toJSONConfig is the known shape) -/\n")
+	w("def cfgShape : CfgShape := {\n  defaultTrustAll := %v,\n  loadDefaults := %v,\n  loadResetsTrustAll := %v,\n  applyResetsTrustAll := %v,\n  applyResetsPeers := %v }\n\n",
+		cs.defaultTrustAll, cs.loadDefaults, cs.loadResetsTrustAll, cs.applyResetsTrustAll, cs.applyResetsPeers)
 	w("end CV.C07.Gen\n")
 	fmt.Print(b.String())
 }
